@@ -120,6 +120,8 @@ pub proof fn lemma_minimal_len(s: Seq<u8>, k: nat)
     lemma_le_nat_lower(s);
     if s.len() > k { lemma_pow256_mono(k, (s.len() - 1) as nat); }
 }
+// the length of a slice is a usize (vstd's own axiom about `spec_slice_len`; nothing assumed here)
+pub proof fn lemma_slice_len<T>(s: &[T]) ensures s@.len() <= usize::MAX { assert(vstd::slice::spec_slice_len(s) == s@.len()); }
 pub proof fn lemma_subrange_all<T>(s: Seq<T>) ensures s.subrange(0, s.len() as int) == s { assert(s.subrange(0, s.len() as int) =~= s); }
 
 // ---------------------------------------------------------------------------------------------
